@@ -488,3 +488,25 @@ impl VStatsTx {
         requires status is Ok ==> every_blob_added_and_packer_finalized(),
     { unimplemented!() }
 }
+
+// ---- the hand-back of a packer thread's status: Packer::finalize / Actor::finalize and the pass-through finalizers ----
+// the receiving end of the `finish` channel: `sent_ok` = the status the thread sent is Ok (what makes it Ok is decided by the
+// units packer_writer_status / actor_writer_status)
+pub struct VSenderF { pub _opaque: u64 }
+pub struct VFinishRxStats { pub sent_ok: Ghost<bool> }
+pub struct VFinishRxUnit { pub sent_ok: Ghost<bool> }
+impl VFinishRxStats {
+    // recv().expect(..): the status the thread sent (a closed channel panics: never a silent success)
+    #[verifier::external_body]
+    pub fn vrecv(&self) -> (r: RusticResult<PackerStatsR>) ensures r is Ok <==> self.sent_ok@, { unimplemented!() }
+}
+impl VFinishRxUnit {
+    #[verifier::external_body]
+    pub fn vrecv(&self) -> (r: RusticResult<()>) ensures r is Ok <==> self.sent_ok@, { unimplemented!() }
+}
+#[verifier::external_body]
+pub fn vdrop_sender(s: VSenderF) { unimplemented!() }
+pub struct PackerF { pub sender: VSenderF, pub finish: VFinishRxStats }
+pub struct ActorF { pub sender: VSenderF, pub finish: VFinishRxUnit }
+pub struct BlobCopierF { pub packer: PackerF }
+pub struct FileArchiverF { pub data_packer: PackerF }
